@@ -237,6 +237,11 @@ def chunk_blobs(chunk, acc):
         blobs.append((f"A-{ln}", pkcs1_encrypt(key, b"A" * ln, ln + 1)))
     for ln in (0, 1, 3):  # shorter than the magic itself
         blobs.append((f"short-{ln}", pkcs1_encrypt(key, good[:ln], 77 + ln)))
+    # a genuine ciphertext with something in front of / behind it, cut short, or given twice: not one RSA block
+    with ScriptedRandom(acc.seed + 5):
+        valid = c2.encrypt_metadata(m, key.public_key())
+    for name, blob in (("valid+00", valid + b"\x00"), ("valid+16", valid + bytes(lcg(16, 3))), ("valid+valid", valid + valid), ("00+valid", b"\x00" + valid), ("valid-1", valid[:-1]), ("valid[1:]", valid[1:]), ("valid+k", valid + bytes(k))):
+        blobs.append((name, blob))
     for name, blob in blobs:
         acc.states += 1
         acc.transitions += 1
